@@ -449,6 +449,23 @@ def gen_meta_value(rng, spec, app, mname, prop, uniq, safe=False):
         cur.append(ix)
         return cur
     if prop == 'constraints':
+        if cur and rng.random() < 0.2:
+            # an existing constraint is redefined under its name (nothing
+            # else changes): other columns for a unique constraint, another
+            # bound for a check
+            i = rng.randrange(len(cur))
+            c = cur[i]
+            if c['type'] == 'unique' and len(cols) >= 2:
+                k = 1 if rng.random() < 0.4 else 2
+                nf = rng.sample(cols, k)
+                if nf != c['fields']:
+                    c['fields'] = nf
+                    return cur
+            elif c['type'] == 'check':
+                q = gen_q(rng, mspec, safe=safe)
+                if q and q != c['check']:
+                    c['check'] = q
+                    return cur
         if cur and rng.random() < 0.35:
             cur.pop(rng.randrange(len(cur)))
             return cur
